@@ -787,6 +787,57 @@ func botRepeatCase(r *rand.Rand, snap *pokertable.Table, caseNo int) string {
 	return sb.String()
 }
 
+// botHumanCase: a humanised bot (it thinks for a random number of whole seconds below the action time before it moves) is
+// asked for a wager action, and while its move is still pending the table is published again with the same hand state
+// (somebody reserved a seat, say). The bot still makes its one move.
+func botHumanCase(r *rand.Rand, snap *pokertable.Table, caseNo int) string {
+	t := safeClone(snap)
+	if t == nil || t.State.GameState == nil || t.State.Status != pokertable.TableStateStatus_TableGamePlaying {
+		return ""
+	}
+	gs := t.State.GameState
+	if gs.Status.CurrentEvent != "RoundStarted" {
+		return ""
+	}
+	gi := gs.Status.CurrentPlayer
+	if p := gs.GetPlayer(gi); p == nil || len(p.AllowedActions) == 0 || gi >= len(t.State.GamePlayerIndexes) {
+		return ""
+	}
+	t.Meta.ActionTime = 2 // thinks 0 or 1 s
+	playerID := t.State.PlayerStates[t.State.GamePlayerIndexes[gi]].PlayerID
+	a := actor.NewActor()
+	ad := &recAdapter{}
+	a.SetAdapter(ad)
+	br := actor.NewBotRunner(playerID)
+	br.Humanized(true)
+	a.SetRunner(br)
+	ad.UpdateTableState(safeClone(t))
+	time.Sleep(time.Duration(100+r.Intn(200)) * time.Millisecond)
+	again := safeClone(t)
+	again.UpdateSerial++
+	ad.UpdateTableState(again)
+	// the move is due at most one second after the first publication
+	waitFor(1800*time.Millisecond, func() bool {
+		ad.mu.Lock()
+		defer ad.mu.Unlock()
+		return len(ad.calls) > 0
+	})
+	time.Sleep(150 * time.Millisecond) // a second move, if any, is made at about the same moment
+	mv := "none"
+	if calls := ad.take(); len(calls) > 0 {
+		mv = fmt.Sprintf("%s:%d", calls[0].kind, calls[0].arg)
+		if len(calls) > 1 {
+			mv += fmt.Sprintf("+%d-more", len(calls)-1)
+		}
+	}
+	var sb strings.Builder
+	fmt.Fprintf(&sb, "ac new h=%d kind=bothuman\n", 920000+caseNo)
+	fmt.Fprintf(&sb, "ac bot id=%d seated=1 in=1 st=playing gi=%d %s | move=%s res=ok\n", idNum(playerID), gi, viewStr(gs), mv)
+	fmt.Fprintf(&sb, "ac bot id=%d seated=1 in=1 st=playing gi=%d %s | move=none res=ok\n", idNum(playerID), gi, viewStr(gs))
+	sb.WriteString("ac end\n")
+	return sb.String()
+}
+
 func pickPlayer(r *rand.Rand, s *pokertable.Table) string {
 	gi := s.State.GamePlayerIndexes
 	if len(gi) == 0 {
@@ -897,6 +948,35 @@ func runActor(args []string) {
 				w.WriteString(l)
 				k++
 				st.BotCases++
+			}
+		}
+		// humanised bots with a pending move and an unrelated publication, in parallel (each takes up to two seconds)
+		{
+			roundSnaps := []*pokertable.Table{}
+			for _, sn := range snaps {
+				if g := sn.State.GameState; g != nil && g.Status.CurrentEvent == "RoundStarted" && sn.State.Status == pokertable.TableStateStatus_TableGamePlaying {
+					roundSnaps = append(roundSnaps, sn)
+				}
+			}
+			nh := *bcases / 25
+			if nh > 48 {
+				nh = 48
+			}
+			hum := make([]string, nh)
+			var wgh sync.WaitGroup
+			for k := 0; k < nh && len(roundSnaps) > 0; k++ {
+				wgh.Add(1)
+				go func(k int, sn *pokertable.Table, rr *rand.Rand) {
+					defer wgh.Done()
+					hum[k] = botHumanCase(rr, sn, k)
+				}(k, roundSnaps[r.Intn(len(roundSnaps))], rand.New(rand.NewSource(r.Int63())))
+			}
+			wgh.Wait()
+			for _, l := range hum {
+				if l != "" {
+					w.WriteString(l)
+					st.BotCases++
+				}
 			}
 		}
 		w.WriteString("ac new h=900001 kind=player\n")
